@@ -40,6 +40,7 @@ structure Blk where
   syncing : Nat := 0
   synced : Nat := 0
   epochCount : Nat := 0
+  base : Nat := 0     -- ghost: the cursor the block was (re)attached with
 deriving Repr, DecidableEq
 
 /-- `pb.BlockState` (the generation is ghost). -/
@@ -322,302 +323,5 @@ def crash (d : StateDir) (pick : Nat) (leftover : Bool) : StateDir :=
 
 end StateDir
 
-/-! ## Objects, the world -/
-
-/-- One allocation (`Block.Put`): identity, place, and what is known about its content. -/
-structure Obj where
-  id : Nat
-  gid : Nat
-  slot : Nat
-  off : Nat
-  size : Nat
-  key : Nat
-  abs : Nat                     -- absolute block index in the process that allocated it
-  upload : Bool                 -- written by a client (otherwise: a refresh copy)
-  data : Nat := 0               -- content token, valid once `copied`
-  copied : Bool := false        -- the writer finished successfully (all sector writes issued)
-  inImg : Bool := false         -- its bytes are in the running process's shared sector images
-  fin : Option Nat := none      -- the latest epoch when its finalizer succeeded
-deriving Repr, DecidableEq
-
-/-- Program counter of the goroutine looping over `ProcessBlockPut`. -/
-inductive G1
-  | idle
-  | started (final : Bool)    -- NotifySyncStarting done; data sync not running
-  | syncing (final : Bool)    -- inside dataSyncer()
-  | synced (final : Bool)     -- dataSyncer() returned nil
-  | want (final : Bool)       -- NotifySyncCompleted done; persistent state to be written
-  | finished                  -- ProcessBlockPut returned false
-deriving Repr, DecidableEq
-
-/-- A `writePersistentState` call in progress (they are serialised by `storeLock`).
-Stages: 0 state taken, 1 `state.new` removed, 2 created, 3 written, 4 fsynced, 5 renamed,
-6 directory fsynced. -/
-structure Sw where
-  owner : Nat      -- 1 = ProcessBlockPut, 2 = ProcessBlockRelease
-  file : SFile
-  stage : Nat
-deriving Repr
-
-structure World where
-  cfg : Cfg
-  pbl : PBL := {}
-  free : List Nat                 -- allocator's `freeOffsets` (as slots)
-  pins : List Nat := []           -- gid per open writer / reader
-  zombies : List Blk := []        -- released by the list while pinned
-  objs : List Obj := []
-  data : DataDev := {}
-  idx : IdxDev := {}
-  dir : StateDir := {}
-  nextSeed : Nat := 1
-  nextGid : Nat := 0
-  g1 : G1 := .idle
-  sw : Option Sw := none
-  shadow : List (Nat × Nat) := []   -- ghost: (key, data) of acknowledged uploads
-deriving Repr
-
-def World.fresh (c : Cfg) : World := { cfg := c, free := List.range c.nslots }
-
-namespace World
-
-def obj? (w : World) (id : Nat) : Option Obj := w.objs.find? (·.id == id)
-
-def updObj (w : World) (id : Nat) (f : Obj → Obj) : World :=
-  { w with objs := w.objs.map fun o => if o.id == id then f o else o }
-
-/-- Is the object's every sector, in the given view of the device, carrying its bytes? -/
-def presentIn (w : World) (view : Nat → Nat → List Nat) (o : Obj) : Bool :=
-  (secsOf w.cfg.ss o.off o.size).all fun s => (view o.slot s).contains o.id
-
-def presentCur (w : World) (o : Obj) : Bool := w.presentIn w.data.curGet o
-
-/-- A read of `size` bytes at `off` of the block at `slot`: the object found there, if intact. -/
-def readAt (w : World) (slot off size : Nat) : Option Obj :=
-  w.objs.find? fun o => o.copied && o.slot == slot && o.off == off && o.size == size && w.presentCur o
-
-/-- The in-memory image of a sector of block generation `gid`. -/
-def imageAt (w : World) (gid sec : Nat) : List Nat :=
-  (w.objs.filter fun o => o.gid == gid && o.inImg && (secsOf w.cfg.ss o.off o.size).contains sec).map (·.id)
-
-/-- `BlockReferenceToBlockIndex` + checksum verification of a record. -/
-def resolve (w : World) (r : PRec) : Option Nat :=
-  match w.pbl.refToIdx r.epoch r.bfl with
-  | some (i, sd) => if sd == r.seed then some i else none
-  | none => none
-
-/-- `Block.Release` by a reader or writer. -/
-def unpin (w : World) (gid : Nat) : World :=
-  let pins := w.pins.erase gid
-  match w.zombies.find? (·.gid == gid) with
-  | some z =>
-    if pins.contains gid then { w with pins := pins }
-    else { w with pins := pins, zombies := w.zombies.filter (·.gid != gid), free := w.free ++ [z.slot] }
-  | none => { w with pins := pins }
-
-/-- `Block.Release` by the block list. -/
-def listRelease (w : World) (b : Blk) : World :=
-  if w.pins.contains b.gid then { w with zombies := w.zombies ++ [b] }
-  else { w with free := w.free ++ [b.slot] }
-
-def popFront (w : World) : Option World :=
-  match w.pbl.popFront with
-  | some (_, p) => some { w with pbl := p }
-  | none => none
-
-/-- `PushBack`; `none` = UNAVAILABLE (closed for writing, or no unused block). -/
-def pushBack (w : World) : Option World :=
-  if w.pbl.closed then none else
-  match w.free with
-  | [] => none
-  | slot :: rest =>
-    some { w with pbl := w.pbl.pushBack w.nextGid slot, free := rest, nextGid := w.nextGid + 1 }
-
-inductive Reserve
-  | ok (o : Obj) (w : World)
-  | closed          -- `Put` on a list that is closed for writing: a writer that only discards
-  | bad             -- no such block / no space: not reachable through `findBlockWithSpace`
-
-/-- `blockList.Put(index, size)`: the locked part. -/
-def reserve (w : World) (i size key : Nat) (upload : Bool) : Reserve :=
-  if w.pbl.closed then .closed else
-  match w.pbl.blocks[i]? with
-  | none => .bad
-  | some b =>
-    if b.cursor + size > w.cfg.bs then .bad else
-    match w.pbl.reserve i size with
-    | none => .bad
-    | some (off, p) =>
-      let o : Obj := { id := w.objs.length, gid := b.gid, slot := b.slot, off := off, size := size,
-                       key := key, abs := w.pbl.released + i, upload := upload }
-      .ok o { w with pbl := p, objs := w.objs ++ [o], pins := b.gid :: w.pins }
-
-/-- The sector writes of one object's writer, in the order they are issued. -/
-def emit (w : World) (o : Obj) : World :=
-  (secsOf w.cfg.ss o.off o.size).foldl
-    (fun w s => { w with data := w.data.write { slot := o.slot, sec := s, objs := w.imageAt o.gid s } }) w
-
-/-- The unlocked part of an upload: the data is copied into the block, the block reference taken
-by `Put` is dropped. -/
-def copy (w : World) (id data : Nat) : Option World :=
-  match w.obj? id with
-  | none => none
-  | some o =>
-    if o.copied then none else
-    let w := w.updObj id fun o => { o with data := data, copied := true, inImg := true }
-    some ((w.emit { o with data := data, copied := true, inImg := true }).unpin o.gid)
-
-/-- The writer is abandoned before it issued any write (source failed at once). -/
-def abandon (w : World) (id : Nat) : Option World :=
-  match w.obj? id with
-  | none => none
-  | some o => if o.copied then none else some (w.unpin o.gid)
-
-inductive Fin
-  | ok (w : World)
-  | unavailable
-  | internal
-  | bad            -- unknown object, or its writer did not finish: no finalizer to call
-
-/-- The locked part after the copy: `PersistentBlockList`'s finalizer. -/
-def finalize (w : World) (id : Nat) : Fin :=
-  match w.obj? id with
-  | none => .bad
-  | some o =>
-    if !o.copied || o.fin.isSome then .bad else
-    match w.pbl.finalize o.abs o.off o.size w.nextSeed with
-    | .unavailable => .unavailable
-    | .internal => .internal
-    | .ok p e =>
-      let w1 := { w with pbl := p, nextSeed := if w.pbl.bumps o.abs then w.nextSeed + 1 else w.nextSeed,
-                         shadow := if o.upload then (o.key, o.data) :: w.shadow else w.shadow }
-      .ok (w1.updObj id fun o => { o with fin := some e })
-
-/-- `LocationRecordArray.Put`: serialise a record for a location in the block with absolute index
-`abs` under the latest epoch and write it to the index device. `none` = a Go panic. -/
-def recWrite (w : World) (slot key att abs off size : Nat) : Option World :=
-  if abs < w.pbl.released then none else
-  match w.pbl.idxToRef (abs - w.pbl.released) with
-  | none => none
-  | some (e, bfl, sd) => some { w with idx := w.idx.write slot ⟨e, bfl, key, att, off, size, sd⟩ }
-
-/-! ### PeriodicSyncer -/
-
-/-- `ProcessBlockPut` takes the lock after its wait: `NotifySyncStarting(false)`. -/
-def g1Start (w : World) : Option World :=
-  match w.g1 with
-  | .idle => some { w with g1 := .started false, pbl := w.pbl.notifySyncStarting false }
-  | _ => none
-
-def syncBegin (w : World) : Option World :=
-  match w.g1 with
-  | .started f => some { w with g1 := .syncing f, data := w.data.syncBegin }
-  | _ => none
-
-def syncEnd (w : World) : Option World :=
-  match w.g1 with
-  | .syncing f => some { w with g1 := .synced f, data := w.data.syncEnd }
-  | _ => none
-
-def syncFail (w : World) : Option World :=
-  match w.g1 with
-  | .syncing f => some { w with g1 := .started f, data := w.data.syncFail }
-  | _ => none
-
-/-- The lock region after a data sync: `NotifySyncCompleted`, and, when shutting down after the
-first sync, `NotifySyncStarting(true)` without releasing the lock in between. -/
-def g1Completed (w : World) (shutdown : Bool) : Option World :=
-  match w.g1 with
-  | .synced false =>
-    let p := w.pbl.notifySyncCompleted
-    if shutdown then some { w with g1 := .started true, pbl := p.notifySyncStarting true }
-    else some { w with g1 := .want false, pbl := p }
-  | .synced true => some { w with g1 := .want true, pbl := w.pbl.notifySyncCompleted }
-  | _ => none
-
-/-- `writePersistentState` acquires `storeLock` and calls `GetPersistentState`. -/
-def swBegin (w : World) (owner : Nat) : Option World :=
-  if w.sw.isSome then none else
-  if owner == 1 && !(w.g1 == .want false || w.g1 == .want true) then none else
-  if owner != 1 && owner != 2 then none else
-  match w.pbl.getPersistentState with
-  | none => none
-  | some (f, p) => some { w with pbl := p, sw := some ⟨owner, f, 0⟩ }
-
-/-- The next directory operation of `WritePersistentState`. -/
-def swStep (w : World) : Option World :=
-  match w.sw with
-  | none => none
-  | some s =>
-    let dir? : Option StateDir :=
-      match s.stage with
-      | 0 => some w.dir.remove
-      | 1 => w.dir.create
-      | 2 => w.dir.writeTmp s.file
-      | 3 => w.dir.fsyncTmp
-      | 4 => w.dir.rename
-      | 5 => some w.dir.dirSync
-      | _ => none
-    match dir? with
-    | none => none
-    | some d => some { w with dir := d, sw := some { s with stage := s.stage + 1 } }
-
-/-- A directory operation fails: `writePersistentState` returns the error (the caller retries). -/
-def swFail (w : World) : Option World :=
-  match w.sw with
-  | some s => if s.stage < 6 then some { w with sw := none } else none
-  | none => none
-
-/-- `NotifyPersistentStateWritten`, `storeLock` released, and `ProcessBlockPut` returns. -/
-def swDone (w : World) : Option World :=
-  match w.sw with
-  | some s =>
-    if s.stage != 6 then none else
-    let (rel, p) := w.pbl.notifyPersistentStateWritten
-    let w1 := rel.foldl listRelease { w with pbl := p, sw := none }
-    some (if s.owner == 1 then
-      { w1 with g1 := match w.g1 with | .want true => .finished | _ => .idle } else w1)
-  | none => none
-
-/-! ### Crash and restart -/
-
-/-- `NewBlockAtLocation`: take the slot out of the free list (swap with the last, truncate). -/
-def attach (free : List Nat) (slot : Nat) : Option (List Nat) :=
-  match free.findIdx? (· == slot), free.getLast? with
-  | some i, some l => some (free.set i l).dropLast
-  | _, _ => none
-
-/-- The loop of `NewPersistentBlockList`: stops at the first block that cannot be re-attached. -/
-def restore (ss : Nat) : List BState → List Nat → PBL → PBL × List Nat
-  | [], free, p => (p, free)
-  | b :: rest, free, p =>
-    match attach free b.slot with
-    | none => (p, free)
-    | some free' =>
-      restore ss rest free'
-        { p with
-          blocks := p.blocks ++ [{ gid := b.gid, slot := b.slot, cursor := (b.wo + ss - 1) / ss * ss,
-                                   written := b.wo, syncing := b.wo, synced := b.wo,
-                                   epochCount := b.seeds.length }]
-          seeds := p.seeds ++ b.seeds
-          epochLast := p.epochLast ++ List.replicate b.seeds.length p.blocks.length }
-
-/-- `ReadPersistentState`: a missing file means a fresh store (oldest epoch 1, no blocks). -/
-def readState (d : StateDir) : SFile := d.state.getD ⟨1, []⟩
-
-/-- The process dies; the medium keeps what the choices say; the store is assembled again from
-the medium (`ReadPersistentState`, `NewBlockDeviceBackedBlockAllocator`, `NewPersistentBlockList`).
-Nothing is written during start-up, so a crash during recovery is a crash with nothing pending. -/
-def crashRestart (w : World) (keepData keepIdx : List Bool) (pick : Nat) (leftover : Bool) : World :=
-  let dir := w.dir.crash pick leftover
-  let f := readState dir
-  let (p, free) := restore w.cfg.ss f.blocks (List.range w.cfg.nslots) {}
-  { w with
-    pbl := { p with oldestEpoch := f.oldest, syncingEpochs := p.seeds.length, syncedEpochs := p.seeds.length }
-    free := free, pins := [], zombies := []
-    objs := w.objs.map fun o => { o with inImg := false }
-    data := w.data.crash keepData, idx := w.idx.crash keepIdx, dir := dir
-    g1 := .idle, sw := none }
-
-end World
 
 end BB.Persist
